@@ -402,13 +402,16 @@ pub struct HOp {
     conv: Conv,
     meta: Meta,
     variant: u8,
+    /// 0: 8 bit in u8 storage resp. (meta.wide) 10 bit in u16 storage; otherwise the bit depth itself,
+    /// stored as u16 when above 8 or when meta.wide is set
+    depth: u8,
 }
 
 fn hop_json(o: &HOp) -> Value {
-    json!({"conv": format!("{:?}", o.conv), "meta": o.meta.json(), "variant": o.variant})
+    json!({"conv": format!("{:?}", o.conv), "meta": o.meta.json(), "variant": o.variant, "depth": o.depth})
 }
 fn hop_from(v: &Value) -> HOp {
-    HOp { conv: super::c14::conv_from(v["conv"].as_str().unwrap()), meta: Meta::from_json(&v["meta"]), variant: v["variant"].as_u64().unwrap() as u8 }
+    HOp { conv: super::c14::conv_from(v["conv"].as_str().unwrap()), meta: Meta::from_json(&v["meta"]), variant: v["variant"].as_u64().unwrap() as u8, depth: v["depth"].as_u64().unwrap_or(0) as u8 }
 }
 
 fn hist_run_t<T: Pixel>(o: &HOp) -> Result<Vec<u32>, String> {
@@ -418,10 +421,13 @@ fn hist_run_t<T: Pixel>(o: &HOp) -> Result<Vec<u32>, String> {
         1 => (3, 1, (0, 0)),
         2 => (4, 4, (0, 0)),
         3 => (4, 2, (1, 1)),
-        _ => (4, 4, (1, 1)),
+        4 => (4, 4, (1, 1)),
+        // large frames: more pixels than a 16-bit sample has code values (65,539 is prime)
+        5 => (65_539, 1, (0, 0)),
+        _ => (262, 252, (1, 1)),
     };
     let m = &o.meta;
-    let n = if m.wide { 10 } else { 8 };
+    let n = if o.depth != 0 { o.depth } else if m.wide { 10 } else { 8 };
     let cfg = cfg_full(n, m.full, ss, m.m, m.t, m.p);
     let (sx, sy) = (ss.0 as usize, ss.1 as usize);
     let fdata: Vec<[f32; 3]> = (0..w * h).map(|i| fcontent(i + 17 * o.variant as usize)).collect();
@@ -455,7 +461,7 @@ fn hist_run_t<T: Pixel>(o: &HOp) -> Result<Vec<u32>, String> {
     })?
 }
 fn hist_run(o: &HOp) -> Result<Vec<u32>, String> {
-    if o.meta.wide {
+    if o.meta.wide || o.depth > 8 {
         hist_run_t::<u16>(o)
     } else {
         hist_run_t::<u8>(o)
@@ -501,7 +507,46 @@ fn hist_ops(tier: Tier) -> Vec<HOp> {
         for (a, b, _) in PAIRS {
             for conv in [a, b] {
                 for &variant in variants {
-                    ops.push(HOp { conv, meta: Meta { m, p, t, wide, full, ss: (0, 0) }, variant });
+                    ops.push(HOp { conv, meta: Meta { m, p, t, wide, full, ss: (0, 0) }, variant, depth: 0 });
+                }
+            }
+        }
+    }
+    ops
+}
+
+/// Large-frame alphabet: state that a conversion only builds or consults for frames with more
+/// pixels than code values (tables, bands, pools) is invisible to the small-image histories. Every
+/// conversion x every storage/depth class {8 in u8, 8 in u16, 10, 12, 16} x {limited, full} (float-only
+/// conversions once per metadata set) on a frame of 65,539 pixels (thorough: also 262x252 4:2:0 and a
+/// second metadata set), and the same operations on a 2x2 frame, so that large-then-small and
+/// small-then-large pairs are histories too.
+fn big_ops(tier: Tier) -> Vec<HOp> {
+    let metas: &[(MC, CP, TC)] = match tier {
+        Tier::Quick => &[(MC::BT709, CP::BT709, TC::BT1886)],
+        Tier::Thorough => &[(MC::BT709, CP::BT709, TC::BT1886), (MC::BT2020NonConstantLuminance, CP::BT2020, TC::PerceptualQuantizer)],
+    };
+    let variants: &[u8] = match tier {
+        Tier::Quick => &[5, 0],
+        Tier::Thorough => &[5, 6, 0],
+    };
+    let mut ops = vec![];
+    for &(m, p, t) in metas {
+        for (a, b, _) in PAIRS {
+            for conv in [a, b] {
+                let yuv = matches!(conv, Conv::YuvToRgb | Conv::RgbToYuv | Conv::YuvToLin | Conv::LinToYuv | Conv::YuvToXyb | Conv::XybToYuv);
+                for &variant in variants {
+                    if !yuv {
+                        if variant != 6 {
+                            ops.push(HOp { conv, meta: Meta { m, p, t, wide: false, full: false, ss: (0, 0) }, variant, depth: 0 });
+                        }
+                        continue;
+                    }
+                    for (depth, wide) in [(8u8, false), (8, true), (10, true), (12, true), (16, true)] {
+                        for full in [false, true] {
+                            ops.push(HOp { conv, meta: Meta { m, p, t, wide, full, ss: (0, 0) }, variant, depth });
+                        }
+                    }
                 }
             }
         }
@@ -522,7 +567,11 @@ fn run_history(ops: Vec<HOp>) -> Vec<Result<Vec<u32>, String>> {
 }
 
 fn check_histories(rep: &mut Report, tier: Tier, base_idx: u64) {
-    let ops = hist_ops(tier);
+    check_histories_over(rep, hist_ops(tier), "", base_idx);
+    check_histories_over(rep, big_ops(tier), "large frames: ", base_idx);
+}
+
+fn check_histories_over(rep: &mut Report, ops: Vec<HOp>, label: &'static str, base_idx: u64) {
     let n = ops.len();
     // reference: each operation as the first call of a fresh thread
     let refs: Vec<Result<Vec<u32>, String>> = {
@@ -535,6 +584,8 @@ fn check_histories(rep: &mut Report, tier: Tier, base_idx: u64) {
         });
         acc.into_inner().unwrap().into_iter().map(|x| x.unwrap()).collect()
     };
+    let refs = std::sync::Arc::new(refs);
+    let ops = std::sync::Arc::new(ops);
     let acc = par_chunks(n as u64, 1, |acc, lo, _| {
         let a = lo as usize;
         let ops2 = ops.clone();
@@ -561,7 +612,7 @@ fn check_histories(rep: &mut Report, tier: Tier, base_idx: u64) {
         acc.states += 2 * n as u64;
         acc.transitions += 2 * n as u64 + 1;
         match bad {
-            None => acc.bucket("histories [a,b] and [a,b,a]: every result equals the fresh-thread result", 2 * n as u64),
+            None => acc.bucket(&format!("{label}histories [a,b] and [a,b,a]: every result equals the fresh-thread result"), 2 * n as u64),
             Some((trace, what)) => {
                 // minimise: the last two / three calls alone, else the whole prefix
                 let last = *trace.last().unwrap();
@@ -584,15 +635,15 @@ fn check_histories(rep: &mut Report, tier: Tier, base_idx: u64) {
                 acc.violation(
                     base_idx + lo,
                     format!("result-depends-on-call-history conv={:?}", ops[last].conv),
-                    format!("a history of {} calls on a fresh thread ends with a result that differs from the same call made first: {what}", chosen.len()),
+                    format!("{label}a history of {} calls on a fresh thread ends with a result that differs from the same call made first: {what}", chosen.len()),
                     json!({"kind":"c11hist","ops": chosen.iter().map(|&i| hop_json(&ops[i])).collect::<Vec<_>>()}),
                 );
             }
         }
     });
     rep.acc.merge(acc);
-    rep.acc.sample(json!({"history_alphabet": n, "example_op": hop_json(&ops[n / 2])}));
-    rep.extra.insert("history_ops".into(), json!(n));
+    rep.acc.sample(json!({"history_alphabet": n, "label": label, "example_op": hop_json(&ops[n / 2])}));
+    rep.extra.insert(if label.is_empty() { "history_ops".into() } else { "history_ops_large_frames".to_string() }, json!(n));
 }
 
 // ---- process-level histories --------------------------------------------------------------------
@@ -603,14 +654,29 @@ fn check_histories(rep: &mut Report, tier: Tier, base_idx: u64) {
 
 fn digest_json(r: &Result<Vec<u32>, String>) -> Value {
     match r {
+        Ok(v) if v.len() > 4096 => {
+            // long results travel between processes as (length, FNV-1a 64) of the exact bit patterns
+            let mut h: u64 = 0xcbf2_9ce4_8422_2325;
+            for x in v {
+                for b in x.to_le_bytes() {
+                    h = (h ^ b as u64).wrapping_mul(0x0000_0100_0000_01b3);
+                }
+            }
+            json!({"ok_len": v.len(), "ok_fnv64": format!("{h:016x}")})
+        }
         Ok(v) => json!({"ok": v}),
         Err(e) => json!({"err": e}),
     }
 }
 
 /// Operations of the process-level walk: the history alphabet restricted to the first image variant.
-fn proc_ops(tier: Tier) -> Vec<HOp> {
-    hist_ops(tier).into_iter().filter(|o| o.variant == 0).collect()
+fn proc_ops(tier: Tier, set: &str) -> Vec<HOp> {
+    if set == "big" {
+        // the quick large-frame alphabet (one metadata set, 65,539-pixel and 2x2 frames)
+        big_ops(Tier::Quick)
+    } else {
+        hist_ops(tier).into_iter().filter(|o| o.variant == 0).collect()
+    }
 }
 
 /// `mc histrun <file>`: run the listed operations in order on the main thread of this (fresh)
@@ -624,8 +690,8 @@ pub fn histrun_main(path: &str) {
 
 /// `mc histwalk <tier> <refs file>`: walk [a, b1, a, b2, ...] for every a, single-threaded, and
 /// print the first call whose result differs from its fresh-process reference.
-pub fn histwalk_main(tier: Tier, refs_path: &str) {
-    let ops = proc_ops(tier);
+pub fn histwalk_main(tier: Tier, refs_path: &str, set: &str) {
+    let ops = proc_ops(tier, set);
     let refs: Value = serde_json::from_str(&std::fs::read_to_string(refs_path).expect("refs file")).expect("refs json");
     let refs = refs.as_array().unwrap();
     let mut prev: Option<usize> = None;
@@ -670,7 +736,14 @@ fn run_in_fresh_process(ops: &[HOp], tag: &str) -> Option<Vec<Value>> {
 }
 
 fn check_histories_process(rep: &mut Report, tier: Tier, base_idx: u64) {
-    let ops = proc_ops(tier);
+    check_histories_process_set(rep, tier, base_idx, "small");
+    if tier == Tier::Thorough {
+        check_histories_process_set(rep, tier, base_idx, "big");
+    }
+}
+
+fn check_histories_process_set(rep: &mut Report, tier: Tier, base_idx: u64, set: &str) {
+    let ops = proc_ops(tier, set);
     let n = ops.len();
     // references: one fresh process per operation
     let refs: Vec<Value> = {
@@ -690,7 +763,7 @@ fn check_histories_process(rep: &mut Report, tier: Tier, base_idx: u64) {
     }
     let rf = scratch_file("histrefs.json");
     std::fs::write(&rf, Value::Array(refs.clone()).to_string()).expect("refs file");
-    let walk = child_json(&["histwalk", tier.name(), &rf]);
+    let walk = child_json(&["histwalk", tier.name(), &rf, set]);
     let _ = std::fs::remove_file(&rf);
     let Some(walk) = walk else {
         rep.guard("process-level histories: the walking child ran to completion", false);
@@ -699,9 +772,9 @@ fn check_histories_process(rep: &mut Report, tier: Tier, base_idx: u64) {
     let calls = walk["calls"].as_u64().unwrap_or(0);
     rep.acc.states += calls;
     rep.acc.transitions += calls + n as u64;
-    rep.extra.insert("process_history_ops".into(), json!(n));
+    rep.extra.insert(if set == "big" { "process_history_ops_large_frames".to_string() } else { "process_history_ops".into() }, json!(n));
     if walk["mismatch"] == false {
-        rep.acc.bucket("process-level histories (single-threaded walk in one child process): every result equals its fresh-process result", calls);
+        rep.acc.bucket(if set == "big" { "large frames: process-level histories (single-threaded walk in one child process): every result equals its fresh-process result" } else { "process-level histories (single-threaded walk in one child process): every result equals its fresh-process result" }, calls);
         return;
     }
     let cur = walk["cur"].as_u64().unwrap() as usize;
@@ -899,8 +972,10 @@ pub fn run(tier: Tier) -> Report {
     check_histories(&mut rep, tier, base + ec.len() as u64);
     check_histories_process(&mut rep, tier, base + ec.len() as u64 + 1);
     rep.guard_bucket("histories [a,b] and [a,b,a]: every result equals the fresh-thread result");
+    rep.guard_bucket("large frames: histories [a,b] and [a,b,a]: every result equals the fresh-thread result");
     rep.bound = format!(
-        "process-level histories: the same walk over the first image variant in one single-threaded child process against one fresh process per operation; call histories [a,b] and [a,b,a] over an alphabet of {} operations (10 conversions x metadata varying every field from {} base triples x {} image variants), each on a fresh thread; image sizes {:?}^2 (plus long/large shapes such as 128x2, 2x128, 257x1, 256x4, 320x8) restricted to multiples of the subsampling x 6 subsamplings x u8/u16 x 4 metadata sets: {} YUV sources (each to Rgb, LinearRgb, Xyb; by reference, by value, repeated, and rebuilt with {} other paddings/poisons; 0..=32 on each axis at 4x4 and 8x8), {} float->float conversions (8 kinds), {} encodes (4 source kinds)",
+        "process-level histories: the same walk over the first image variant in one single-threaded child process against one fresh process per operation; large-frame histories [a,b], [a,b,a] over {} operations (every conversion x storage/depth class 8/u8, 8/u16, 10, 12, 16 x both ranges, on 65,539-pixel and 2x2 frames), each on a fresh thread; call histories [a,b] and [a,b,a] over an alphabet of {} operations (10 conversions x metadata varying every field from {} base triples x {} image variants), each on a fresh thread; image sizes {:?}^2 (plus long/large shapes such as 128x2, 2x128, 257x1, 256x4, 320x8) restricted to multiples of the subsampling x 6 subsamplings x u8/u16 x 4 metadata sets: {} YUV sources (each to Rgb, LinearRgb, Xyb; by reference, by value, repeated, and rebuilt with {} other paddings/poisons; 0..=32 on each axis at 4x4 and 8x8), {} float->float conversions (8 kinds), {} encodes (4 source kinds)",
+        rep.extra.get("history_ops_large_frames").and_then(|v| v.as_u64()).unwrap_or(0),
         rep.extra.get("history_ops").and_then(|v| v.as_u64()).unwrap_or(0), tier.pick(2, 4), tier.pick(3, 5),
         sizes(tier), dc.len(), pads(tier, 5, 5).len(), fc.len(), ec.len()
     );
